@@ -23,6 +23,9 @@ from maze_dataset.generation.generators import GENERATORS_MAP  # noqa: E402
 GEN_NAMES = ["gen_dfs", "gen_prim", "gen_wilson", "gen_percolation", "gen_dfs_percolation"]
 
 
+import time as _time
+
+
 class StepCap(Exception):
     pass
 
@@ -36,14 +39,15 @@ class ScriptedRNG:
       np.random.rand(*shape) -> 2**size coin patterns (bit=1 -> 0.0 i.e. `< p` true for p > 0; bit=0 -> 1-2^-20)
     """
 
-    def __init__(self, answer, cap=100000):
+    def __init__(self, answer, cap=100000, wall=120.0):
         self.answer = answer
         self.calls = []  # (fn, n, a)
         self.cap = cap
         self.desync = False
+        self.deadline = _time.time() + wall  # a scripted run that never ends (e.g. rejection sampling fed a constant) is cut
 
     def ask(self, fn, n):
-        if len(self.calls) >= self.cap:
+        if len(self.calls) >= self.cap or _time.time() > self.deadline:
             raise StepCap()
         a = int(self.answer(fn, int(n)))
         if not 0 <= a < n:
@@ -349,6 +353,7 @@ def learn_wilson_chain(R, C, time_limit=600.0, step_cap=5000, seed=1):
     NINIT = [None]
     rng = pyrandom.Random(seed)
     broken = [False]
+    deadline = [time.time() + time_limit + 30.0]
 
     def absstate(L):
         vis = frozenset((int(i), int(j)) for i, j in zip(*np.where(np.asarray(L["visited"]))))
@@ -364,7 +369,7 @@ def learn_wilson_chain(R, C, time_limit=600.0, step_cap=5000, seed=1):
 
             def choice(n, *a, **k):
                 self.steps += 1
-                if self.steps > step_cap:
+                if self.steps > step_cap or time.time() > deadline[0]:
                     raise StepCap()
                 n = int(n)
                 ARITY.setdefault(self.cur, n)
@@ -373,6 +378,9 @@ def learn_wilson_chain(R, C, time_limit=600.0, step_cap=5000, seed=1):
                 return kk
 
             def randint(low, high=None, size=None, **k):
+                self.steps += 1
+                if self.steps > step_cap or time.time() > deadline[0]:
+                    raise StepCap()
                 if high is None:
                     low, high = 0, low
                 if np.ndim(high) == 0 and size is None:
@@ -409,6 +417,8 @@ def learn_wilson_chain(R, C, time_limit=600.0, step_cap=5000, seed=1):
             return self._l if frame.f_code is code else None
 
         def _l(self, frame, ev, arg):
+            if ev == "line" and time.time() > deadline[0]:
+                raise StepCap()  # the learner's own run is abandoned (the exception is caught in go(), nothing is judged)
             try:
                 if (ev == "line" and frame.f_lineno in heads) or ev == "return":
                     L = frame.f_locals
@@ -464,6 +474,7 @@ def learn_wilson_chain(R, C, time_limit=600.0, step_cap=5000, seed=1):
         return None, None
 
     t0 = time.time()
+    deadline[0] = t0 + time_limit + 30.0
     runs = 0
     complete = False
     while True:
